@@ -1,5 +1,359 @@
 //! Translator targets owned by property C02.
+//!
+//! `layout` → `Generated/LayoutGen.lean`: the layout arithmetic of
+//! `src/runtime/layout.rs`, transliterated function by function:
+//! the two structs (field order), the `assert!`s of `Layout::new`,
+//! `Layout::{new, is_zero_sized, size, align, union}` and
+//! `LayoutBuilder::{new, add, finish}`.
+//!
+//! `layoutloops` → `Generated/LayoutLoops.lean`: the constants the five
+//! independently written enum loops start from — the `Layout::of::<uN>()` tag
+//! each of `Pool::layout_of`, `Lowerer::location`,
+//! `generate_{clone,drop,eq}_body_enum` adds first — and `layout_of`'s layout
+//! of `()`. The model's loops use their own constant; the theorems need them
+//! equal, so changing one of them in the source breaks the proofs.
+//!
+//! `usize` is rendered as `Nat` (no wrap-around: layouts of real types are far
+//! below 2^64; stated as an assumption of C02). A `&mut self` method returns
+//! the pair `(self', result)`. Std methods get their meaning once, in
+//! `RotoV/Model/LayoutStd.lean`. Anything outside this tiny subset is an
+//! extraction failure, never a default.
 #[allow(unused_imports)]
 use super::{Gen, Target};
+use crate::find;
+use quote::ToTokens;
+use std::path::Path;
 
-pub const TARGETS: &[Target] = &[];
+pub const TARGETS: &[Target] = &[
+    ("layout", "LayoutGen", layout as Gen),
+    ("layoutloops", "LayoutLoops", layoutloops as Gen),
+];
+
+type R = Result<String, String>;
+
+fn norm<T: ToTokens>(t: &T) -> String {
+    t.to_token_stream().to_string().replace(' ', "")
+}
+
+fn expr(e: &syn::Expr) -> R {
+    use syn::Expr as E;
+    Ok(match e {
+        E::Paren(p) => expr(&p.expr)?,
+        E::Reference(r) => expr(&r.expr)?,
+        E::Lit(l) => match &l.lit {
+            syn::Lit::Int(i) => i.base10_digits().to_string(),
+            other => return Err(format!("unsupported literal {}", norm(other))),
+        },
+        E::Path(p) => {
+            let s = norm(&p.path);
+            if s.contains("::") {
+                return Err(format!("unsupported path {s}"));
+            }
+            s
+        }
+        E::Field(f) => {
+            let base = expr(&f.base)?;
+            let m = match &f.member {
+                syn::Member::Named(i) => i.to_string(),
+                syn::Member::Unnamed(_) => return Err("tuple field".into()),
+            };
+            format!("{base}.{m}")
+        }
+        E::Binary(b) => {
+            let l = expr(&b.left)?;
+            let r = expr(&b.right)?;
+            match &b.op {
+                syn::BinOp::Add(_) => format!("({l} + {r})"),
+                syn::BinOp::Gt(_) => format!("(decide ({l} > {r}))"),
+                syn::BinOp::Eq(_) => format!("(decide ({l} = {r}))"),
+                other => return Err(format!("unsupported operator {}", norm(other))),
+            }
+        }
+        E::MethodCall(m) => {
+            let r = expr(&m.receiver)?;
+            let args: Result<Vec<String>, String> = m.args.iter().map(expr).collect();
+            let args = args?;
+            let name = m.method.to_string();
+            match (name.as_str(), args.len()) {
+                ("max", 1) => format!("(Nat.max {r} {})", args[0]),
+                ("next_multiple_of", 1) => format!("(nextMultipleOf {r} {})", args[0]),
+                ("is_multiple_of", 1) => format!("(isMultipleOf {r} {})", args[0]),
+                ("is_power_of_two", 0) => format!("(isPowerOfTwo {r})"),
+                ("size", 0) => format!("(Layout.get_size {r})"),
+                ("align", 0) => format!("(Layout.get_align {r})"),
+                _ => return Err(format!("unsupported method .{name}/{}", args.len())),
+            }
+        }
+        E::Call(c) => {
+            let f = norm(&c.func);
+            let args: Result<Vec<String>, String> = c.args.iter().map(expr).collect();
+            let args = args?;
+            match f.as_str() {
+                "Layout::new" | "Self::new" => format!("(Layout.new {})", args.join(" ")),
+                _ => return Err(format!("unsupported call {f}")),
+            }
+        }
+        E::Struct(s) => {
+            let p = norm(&s.path);
+            if p != "Self" && p != "Layout" && p != "LayoutBuilder" {
+                return Err(format!("unsupported struct literal {p}"));
+            }
+            if s.rest.is_some() {
+                return Err("struct update syntax".into());
+            }
+            let mut fs = vec![];
+            for f in &s.fields {
+                let n = match &f.member {
+                    syn::Member::Named(i) => i.to_string(),
+                    _ => return Err("tuple struct literal".into()),
+                };
+                fs.push(format!("{n} := {}", expr(&f.expr)?));
+            }
+            format!("{{ {} }}", fs.join(", "))
+        }
+        other => return Err(format!("unsupported expression `{}`", norm(other))),
+    })
+}
+
+/// (lean body, asserts) of a function body in the subset.
+fn body(block: &syn::Block, mut_self: bool) -> Result<(String, Vec<String>), String> {
+    let mut lines = vec![];
+    let mut asserts = vec![];
+    let mut result: Option<String> = None;
+    for (i, st) in block.stmts.iter().enumerate() {
+        let last = i + 1 == block.stmts.len();
+        if result.is_some() {
+            return Err("statement after the result expression".into());
+        }
+        match st {
+            syn::Stmt::Local(l) => {
+                let name = match &l.pat {
+                    syn::Pat::Ident(p) if p.subpat.is_none() && p.by_ref.is_none() => {
+                        p.ident.to_string()
+                    }
+                    other => return Err(format!("unsupported let pattern {}", norm(other))),
+                };
+                let init = l.init.as_ref().ok_or("let without initialiser")?;
+                if init.diverge.is_some() {
+                    return Err("let-else".into());
+                }
+                lines.push(format!("  let {name} := {}", expr(&init.expr)?));
+            }
+            syn::Stmt::Macro(m) => {
+                let name = norm(&m.mac.path);
+                if name != "assert" {
+                    return Err(format!("unsupported macro {name}!"));
+                }
+                let e: syn::Expr = m
+                    .mac
+                    .parse_body()
+                    .map_err(|e| format!("assert! body: {e}"))?;
+                asserts.push(expr(&e)?);
+            }
+            syn::Stmt::Expr(e, semi) => {
+                if let syn::Expr::Assign(a) = e {
+                    // self.f = e;
+                    let syn::Expr::Field(f) = &*a.left else {
+                        return Err(format!("unsupported assignment target {}", norm(&a.left)));
+                    };
+                    if norm(&f.base) != "self" || !mut_self {
+                        return Err("assignment to something other than a field of &mut self".into());
+                    }
+                    let m = norm(&f.member);
+                    lines.push(format!(
+                        "  let self := {{ self with {m} := {} }}",
+                        expr(&a.right)?
+                    ));
+                } else if semi.is_none() && last {
+                    result = Some(expr(e)?);
+                } else {
+                    return Err(format!("unsupported statement `{}`", norm(e)));
+                }
+            }
+            syn::Stmt::Item(_) => return Err("nested item".into()),
+        }
+    }
+    let res = result.ok_or("function without a result expression")?;
+    let res = if mut_self { format!("(self, {res})") } else { res };
+    lines.push(format!("  {res}"));
+    Ok((lines.join("\n"), asserts))
+}
+
+fn struct_fields(file: &syn::File, name: &str) -> Result<Vec<(String, String)>, String> {
+    for it in &file.items {
+        if let syn::Item::Struct(s) = it {
+            if s.ident == name {
+                let mut out = vec![];
+                for f in &s.fields {
+                    let n = f.ident.as_ref().ok_or("tuple struct")?.to_string();
+                    let t = norm(&f.ty);
+                    if t != "usize" {
+                        return Err(format!("field {name}.{n} has type {t}, expected usize"));
+                    }
+                    out.push((n, "Nat".to_string()));
+                }
+                return Ok(out);
+            }
+        }
+    }
+    Err(format!("struct {name} not found"))
+}
+
+/// binder text and whether the receiver is `&mut self`
+fn params(sig: &syn::Signature, self_ty: &str) -> Result<(String, bool), String> {
+    let mut out = vec![];
+    let mut mut_self = false;
+    for a in &sig.inputs {
+        match a {
+            syn::FnArg::Receiver(r) => {
+                mut_self = r.mutability.is_some() && r.reference.is_some();
+                out.push(format!("(self : {self_ty})"));
+            }
+            syn::FnArg::Typed(t) => {
+                let n = norm(&t.pat);
+                let ty = norm(&t.ty).replace('&', "");
+                let lty = match ty.as_str() {
+                    "usize" => "Nat",
+                    "Self" => self_ty,
+                    "Layout" => "Layout",
+                    other => return Err(format!("unsupported parameter type {other}")),
+                };
+                out.push(format!("({n} : {lty})"));
+            }
+        }
+    }
+    Ok((out.join(" "), mut_self))
+}
+
+fn ret_ty(sig: &syn::Signature, self_ty: &str, mut_self: bool) -> R {
+    let t = match &sig.output {
+        syn::ReturnType::Default => return Err("no return type".into()),
+        syn::ReturnType::Type(_, t) => norm(t),
+    };
+    let l = match t.as_str() {
+        "usize" => "Nat",
+        "bool" => "Bool",
+        "Self" => self_ty,
+        "Layout" => "Layout",
+        other => return Err(format!("unsupported return type {other}")),
+    };
+    Ok(if mut_self {
+        format!("{self_ty} × {l}")
+    } else {
+        l.to_string()
+    })
+}
+
+fn layout(repo: &Path) -> R {
+    let rel = "src/runtime/layout.rs";
+    let file = find::parse(repo, rel)?;
+    let mut s = format!(
+        "/- GENERATED by /verif/extract from {rel} — do not edit. -/\nimport RotoV.Model.LayoutStd\nset_option linter.unusedVariables false\nnamespace RotoV.Gen.LayoutGen\nopen RotoV.LayoutStd\n\n"
+    );
+    for st in ["Layout", "LayoutBuilder"] {
+        let fs = struct_fields(&file, st)?;
+        s += &format!("structure {st} where\n");
+        for (n, t) in &fs {
+            s += &format!("  {n} : {t}\n");
+        }
+        s += "  deriving DecidableEq, Repr, Inhabited\n\n";
+    }
+    // accessor methods first (used by the others), then the arithmetic
+    let fns: &[(&str, &str, &str)] = &[
+        ("Layout", "new", "new"),
+        ("Layout", "size", "get_size"),
+        ("Layout", "align", "get_align"),
+        ("Layout", "is_zero_sized", "is_zero_sized"),
+        ("Layout", "union", "union"),
+        ("LayoutBuilder", "new", "new"),
+        ("LayoutBuilder", "add", "add"),
+        ("LayoutBuilder", "finish", "finish"),
+    ];
+    for (ty, name, lean) in fns {
+        let f = find::func(&file, name, Some(ty))?;
+        let (binders, mut_self) = params(&f.sig, ty)?;
+        let rt = ret_ty(&f.sig, ty, mut_self)?;
+        let (b, asserts) = body(&f.block, mut_self).map_err(|e| format!("{ty}::{name}: {e}"))?;
+        if !asserts.is_empty() {
+            s += &format!(
+                "/-- the `assert!`s of `{ty}::{name}`, in source order -/\ndef {ty}.{lean}_asserts {binders} : List Bool :=\n  [{}]\n\n",
+                asserts.join(", ")
+            );
+        } else if *ty == "Layout" && *name == "new" {
+            return Err("Layout::new has no assert! any more".into());
+        }
+        let sp = if binders.is_empty() { "" } else { " " };
+        s += &format!("def {ty}.{lean}{sp}{binders} : {rt} :=\n{b}\n\n");
+    }
+    s += "end RotoV.Gen.LayoutGen\n";
+    Ok(s)
+}
+
+struct TagFinder {
+    found: Vec<String>,
+}
+impl<'ast> syn::visit::Visit<'ast> for TagFinder {
+    fn visit_expr_call(&mut self, c: &'ast syn::ExprCall) {
+        let f = norm(&c.func);
+        if let Some(t) = f.strip_prefix("Layout::of::<").and_then(|r| r.strip_suffix('>')) {
+            if c.args.is_empty() {
+                self.found.push(t.to_string());
+            }
+        }
+        syn::visit::visit_expr_call(self, c);
+    }
+}
+
+fn int_bytes(t: &str) -> Option<usize> {
+    Some(match t {
+        "u8" | "i8" => 1,
+        "u16" | "i16" => 2,
+        "u32" | "i32" => 4,
+        "u64" | "i64" => 8,
+        _ => return None,
+    })
+}
+
+fn layoutloops(repo: &Path) -> R {
+    use syn::visit::Visit;
+    let fns: &[(&str, &str, Option<&str>, &str)] = &[
+        ("src/mir/ty.rs", "layout_of", Some("Pool"), "tag_layout_of"),
+        ("src/lir/lower.rs", "location", Some("Lowerer"), "tag_location"),
+        ("src/lir/lower/clones.rs", "generate_clone_body_enum", Some("Lowerer"), "tag_clone"),
+        ("src/lir/lower/drops.rs", "generate_drop_body_enum", Some("Lowerer"), "tag_drop"),
+        ("src/lir/lower/eq.rs", "generate_eq_body_enum", Some("Lowerer"), "tag_eq"),
+    ];
+    let mut s = String::from(
+        "/- GENERATED by /verif/extract from src/mir/ty.rs, src/lir/lower.rs, src/lir/lower/{clones,drops,eq}.rs — do not edit. -/\nimport RotoV.Generated.LayoutGen\nnamespace RotoV.Gen.LayoutLoops\nopen RotoV.Gen.LayoutGen\n\n",
+    );
+    for (rel, name, imp, lean) in fns {
+        let file = find::parse(repo, rel)?;
+        let f = find::func(&file, name, *imp)?;
+        let mut tf = TagFinder { found: vec![] };
+        tf.visit_block(&f.block);
+        let ints: Vec<&String> = tf.found.iter().filter(|t| int_bytes(t).is_some()).collect();
+        if ints.len() != 1 {
+            return Err(format!(
+                "{rel}::{name}: expected exactly one `Layout::of::<integer>()` (the enum tag), found {:?}",
+                tf.found
+            ));
+        }
+        let b = int_bytes(ints[0]).unwrap();
+        s += &format!(
+            "/-- `Layout::of::<{}>()` in `{name}` ({rel}) -/\ndef {lean} : Layout := Layout.new {b} {b}\n\n",
+            ints[0]
+        );
+    }
+    // `Ty::Unit => Layout::new(0, 1)` in layout_of
+    let file = find::parse(repo, "src/mir/ty.rs")?;
+    let f = find::func(&file, "layout_of", Some("Pool"))?;
+    let ms = find::matches_on(&f.block, "self.get(ty)");
+    if ms.len() != 1 {
+        return Err(format!("layout_of: expected one `match self.get(ty)`, found {}", ms.len()));
+    }
+    let arm = find::arm_for(&ms[0], "Unit")?;
+    let body = expr(&arm.body).map_err(|e| format!("layout_of Ty::Unit arm: {e}"))?;
+    s += &format!("/-- `Ty::Unit => …` in `layout_of` -/\ndef unit_layout : Layout := {body}\n\n");
+    s += "end RotoV.Gen.LayoutLoops\n";
+    Ok(s)
+}
